@@ -166,8 +166,15 @@ class Parser:
             if self.at("("):                           # pub(crate)
                 while not self.eat(")"): self.i += 1
             if self.at("use"):
+                if self.peek(1)[0] == "id" and self.at("as", 2) and self.peek(3)[0] == "id" and self.at(";", 4):
+                    items.append({"k": "fnalias", "name": self.peek(3)[1], "target": self.peek(1)[1]})
                 while not self.eat(";"): self.i += 1
                 continue
+            if self.at("type") and self.peek(1)[0] == "id" and self.at("=", 2):
+                self.i += 1
+                name = self.ident(); self.expect("=")
+                t = self.type(); self.expect(";")
+                items.append({"k": "alias", "name": name, "type": t}); continue
             if self.at("struct"):
                 items.append(self.struct(derives)); continue
             if self.at("enum"):
@@ -724,10 +731,26 @@ TYPED_METHODS = {
 # the trait ShortMessage: required methods and the two defaults the crate's own types override (dispatch through Impl)
 MSG_REQUIRED = {"status_byte": "status", "data_byte_1": "d1", "data_byte_2": "d2"}
 MSG_OVERRIDABLE = {"to_bytes": ("pure", "toBytes"), "to_structured": ("res", "Midi.toStructured")}
+# `RawShortMessage::<constructor>(..)` on the concrete type: the trait default through rawFactory (hand-written model)
+RAW_STATIC = {"note_on": "Midi.mkNoteOn Midi.rawFactory", "note_off": "Midi.mkNoteOff Midi.rawFactory",
+              "control_change": "Midi.mkControlChange Midi.rawFactory", "program_change": "Midi.mkProgramChange Midi.rawFactory",
+              "polyphonic_key_pressure": "Midi.mkPolyphonicKeyPressure Midi.rawFactory", "channel_pressure": "Midi.mkChannelPressure Midi.rawFactory",
+              "pitch_bend_change": "Midi.mkPitchBendChange Midi.rawFactory", "system_exclusive_start": "Midi.mkSystemExclusiveStart Midi.rawFactory",
+              "time_code_quarter_frame": "Midi.mkTimeCodeQuarterFrame Midi.rawFactory", "song_position_pointer": "Midi.mkSongPositionPointer Midi.rawFactory",
+              "song_select": "Midi.mkSongSelect Midi.rawFactory", "from_bytes": "Midi.fromBytes Midi.rawFactory",
+              "tune_request": "Midi.mkPlain Midi.rawFactory MsgType.tuneRequest", "system_exclusive_end": "Midi.mkPlain Midi.rawFactory MsgType.systemExclusiveEnd",
+              "timing_clock": "Midi.mkPlain Midi.rawFactory MsgType.timingClock", "start": "Midi.mkPlain Midi.rawFactory MsgType.start",
+              "continue_": "Midi.mkPlain Midi.rawFactory MsgType.«continue»", "stop": "Midi.mkPlain Midi.rawFactory MsgType.stop",
+              "active_sensing": "Midi.mkPlain Midi.rawFactory MsgType.activeSensing", "system_reset": "Midi.mkPlain Midi.rawFactory MsgType.systemReset"}
+NEWTYPE_MAX = {"U4": 15, "U7": 127, "U14": 16383, "Channel": 15, "KeyNumber": 127, "ControllerNumber": 127}
 FACTORY_BY_TYPE = {"StructuredShortMessage": "Midi.structuredFactory", "RawShortMessage": "Midi.rawFactory"}
 # path functions of the rest of the crate: (kind, lean) ; kind pure | res (returns Res) | id (identity on its argument)
 EXTERN_FNS = {
     "build_14_bit_value_from_two_7_bit_values": ("pure", "Midi.build14"),
+    "ParameterNumberMessage::non_registered_7_bit": ("pure", "Midi.PNMsg.ctor 0"),
+    "ParameterNumberMessage::non_registered_14_bit": ("pure", "Midi.PNMsg.ctor 1"),
+    "ParameterNumberMessage::registered_7_bit": ("pure", "Midi.PNMsg.ctor 4"),
+    "ParameterNumberMessage::registered_14_bit": ("pure", "Midi.PNMsg.ctor 5"),
     "ParameterNumberMessage::seven_bit": ("pure", "Midi.PNMsg.sevenBit"),
     "ParameterNumberMessage::fourteen_bit": ("pure", "Midi.PNMsg.fourteenBit"),
     "ControlChange14BitMessage::new": ("res", "Midi.CC14Msg.new"),
@@ -818,6 +841,8 @@ class Gen:
         self.extern_enum_decls = extern_enums                 # Rust enum name -> parsed enum
         self.tmp = 0
         self.skipped = [it["what"] for it in items if it["k"] == "skipped"] + extra_skipped
+        self.type_alias = {it["name"]: it["type"] for it in items if it["k"] == "alias"}
+        self.fn_alias = {it["name"]: it["target"] for it in items if it["k"] == "fnalias"}
         self.notes = set()
         for it in items:
             if it["k"] == "struct": self.structs[it["name"]] = it
@@ -913,6 +938,8 @@ class Gen:
             return "(" + " × ".join(self.ty(x, owner, generics, fngen) for x in t["elems"]) + ")"
         if k == "impl": raise TErr("impl type in unsupported position")
         n = t["name"]
+        if n in self.type_alias and not t["args"]:
+            return self.ty(self.type_alias[n], owner, generics, fngen)
         if n == "Self":
             if self.trait_kind.get(owner) == "factory": return "β"
             if self.trait_kind.get(owner) == "message": return "α"
@@ -1532,7 +1559,17 @@ class Gen:
     def call(self, e, env, ctx, k):
         f = e["f"]
         if f["k"] != "path": raise TErr("call of a non-path")
-        segs = f["segs"]; full = "::".join(segs)
+        segs = list(f["segs"])
+        if len(segs) == 1 and segs[0] in self.fn_alias and segs[0] not in env["vars"]:
+            segs = [self.fn_alias[segs[0]]]
+        if len(segs) == 2 and segs[0] in self.type_alias:
+            segs = [self.type_alias[segs[0]]["name"], segs[1]]
+        full = "::".join(segs)
+        if len(segs) == 2 and segs[0] == "RawShortMessage" and segs[1] in RAW_STATIC:
+            def kraw(vs, env2):
+                t = self.fresh()
+                return paren(["do", "  let %s ← %s %s" % (t, RAW_STATIC[segs[1]], " ".join(vs))] + ind(k(t, env2)))
+            return self.seq(e["args"], env, ctx, kraw)
         if full == "Default::default" and not e["args"]:
             return k("default", env)
         if full == "Instant::now" and not e["args"]:
@@ -1585,7 +1622,9 @@ class Gen:
             t = self.fresh()
             self.check_factory(key, ctx)
             extra = (["I"] if key in self.needs_impl else []) + ([self.factory_arg(ctx)] if key in self.needs_factory else []) + vs + (["now"] if key in self.needs_now else [])
-            return paren(["do", "  let %s ← %s %s" % (t, self.lean_fn_name(key), " ".join(extra))] + ind(k(t, env2)))
+            fname = self.lean_fn_name(key)
+            if key[0] is None: fname = "Midi.Gen.%s.%s" % (self.modname, fname)     # a parameter may carry the same name
+            return paren(["do", "  let %s ← %s %s" % (t, fname, " ".join(extra))] + ind(k(t, env2)))
         return self.seq(e["args"], env, ctx, ks)
 
     def mcall(self, e, env, ctx, k):
@@ -1593,10 +1632,11 @@ class Gen:
         if name == "expect":
             if len(e["args"]) != 1 or e["args"][0]["k"] != "str": raise TErr("expect without a literal message")
             msg = e["args"][0]["v"]
-            if msg not in EXPECT_PANICS: raise TErr("expect(%r): no panic site in the model" % msg)
+            table = dict(EXPECT_PANICS); table.update(self.cfg.get("expect_panics", {}))
+            if msg not in table: raise TErr("expect(%r): no panic site in the model" % msg)
             def ke(v, env2):
                 t = self.fresh()
-                return paren(["match %s with" % v, "| some %s =>" % t] + ind(k(t, env2)) + ["| none => .error .%s" % EXPECT_PANICS[msg]])
+                return paren(["match %s with" % v, "| some %s =>" % t] + ind(k(t, env2)) + ["| none => .error .%s" % table[msg]])
             return self.E(recv, env, ctx, ke)
         is_self = recv["k"] == "path" and recv["segs"] == ["self"]
         if is_self and self.trait_kind.get(ctx["owner"]) == "message":
@@ -1633,6 +1673,10 @@ class Gen:
             dstn = dst["name"] if dst and dst.get("k") == "path" else None
             if dstn in TRY_FROM_U8:
                 return self.E(recv, env, ctx, lambda v, env2: k("(%s %s)" % (TRY_FROM_U8[dstn], v), env2))
+            if dstn in NEWTYPE_MAX and self.int_type(recv, env, ctx) in CAST_MOD:
+                self.notes.add("`TryFrom<unsigned primitive>` for a restricted integer is modelled by its proved characterisation "
+                               "(C05.conversions_faithful): Ok(value) exactly up to the maximum")
+                return self.E(recv, env, ctx, lambda v, env2: k("(if %s ≤ %d then some %s else none)" % (v, NEWTYPE_MAX[dstn], v), env2))
             raise TErr("`.try_into()` into %s: conversion not modelled / target type unknown" % dstn)
         if name == "into" and not e["args"]:
             src = rt0["name"] if rt0 and rt0["k"] == "path" else None
@@ -1899,6 +1943,11 @@ FILES = [("control_change_14_bit_message.rs", "CCMsg", {}),
                                            "trait_impls": [["From", "U7"], ["From", "TimeCodeQuarterFrame"]],
                                            "inherent_impls": ["ShortMessageType", "FuzzyMessageSuperType", "MessageSuperType"]}),
          ("controller_number_mod.rs", "CnPredicates", {"only_traits": [], "inherent_impls": ["ControllerNumber"]}),
+         ("test_util.rs", "TestUtil", {"tuple3_bytes": True, "expect_panics": {
+             "not a valid 4-bit integer": "testUtilExpect", "not a valid 7-bit integer": "testUtilExpect",
+             "not a valid 14-bit integer": "testUtilExpect", "not a valid channel": "testUtilExpect",
+             "not a valid key number": "testUtilExpect", "not a valid controller number": "testUtilExpect",
+             "invalid status byte": "testUtilExpect"}}),
          ("raw_short_message.rs", "RawImpl", {"only_traits": [], "tuple3_bytes": True,
                                               "trait_impls": [["ShortMessageFactory", "RawShortMessage"], ["ShortMessage", "RawShortMessage"]]}),
          ("bit_util.rs", "BitUtil", {}),
